@@ -281,33 +281,45 @@ func (lm *levelManager) flushToL0(kvs []types.Entry) error {
 		dataBlockIndex: dataBlockIndex,
 	}
 
+	// file name format: level-idx.db
+	if err := lm.writeTable(0, th.levelIdx, tableBytes); err != nil {
+		return err
+	}
+
 	// l0 list
 	lm.levels[0].PushBack(th)
 
-	// file name format: level-idx.db
-	fd, err := os.OpenFile(lm.fileName(0, th.levelIdx), os.O_CREATE|os.O_RDWR|os.O_TRUNC, 0600)
+	return nil
+}
+
+// writeTable makes a sstable durable before it appears under its final name,
+// so that recovery never finds a partly written table and callers may delete what the table replaces
+func (lm *levelManager) writeTable(level, idx int, tableBytes []byte) error {
+	name := lm.fileName(level, idx)
+	tmp := name + ".tmp"
+
+	fd, err := os.OpenFile(tmp, os.O_CREATE|os.O_RDWR|os.O_TRUNC, 0600)
 	if err != nil {
 		return err
 	}
-	defer func() {
-		if err = fd.Close(); err != nil {
-			lm.logger.Errorf("failed to close file: %v", err)
-		}
-	}()
 
 	// write sstable
-	_, err = fd.Write(tableBytes)
-	if err != nil {
+	if _, err = fd.Write(tableBytes); err != nil {
+		_ = fd.Close()
 		return err
 	}
 
 	// os sync
 	if err = fd.Sync(); err != nil {
-		lm.logger.Errorf("failed to sync file: %v", err)
+		_ = fd.Close()
 		return err
 	}
 
-	return nil
+	if err = fd.Close(); err != nil {
+		return err
+	}
+
+	return os.Rename(tmp, name)
 }
 
 func (lm *levelManager) checkAndCompact() {
@@ -421,6 +433,11 @@ func (lm *levelManager) compactL0() {
 		dataBlockIndex: dataBlockIndex,
 	}
 
+	// write new sstable before anything is deleted: until it is durable the old sstables are the only copy
+	if err := lm.writeTable(1, th.levelIdx, tableBytes); err != nil {
+		lm.logger.Panicf("failed to write sstable: %v", err)
+	}
+
 	// update index
 	// add new index to L1
 	lm.levels[1].PushBack(th)
@@ -445,22 +462,6 @@ func (lm *levelManager) compactL0() {
 		if err := os.Remove(lm.fileName(1, e.Value.(tableHandle).levelIdx)); err != nil {
 			lm.logger.Panicf("failed to delete old sstable: %v", err)
 		}
-	}
-
-	// write new sstable
-	fd, err := os.OpenFile(lm.fileName(1, th.levelIdx), os.O_CREATE|os.O_RDWR|os.O_TRUNC, 0600)
-	if err != nil {
-		lm.logger.Panicf("failed to open sstable: %v", err)
-	}
-	defer func() {
-		if err = fd.Close(); err != nil {
-			lm.logger.Errorf("failed to close file: %v", err)
-		}
-	}()
-
-	_, err = fd.Write(tableBytes)
-	if err != nil {
-		lm.logger.Panicf("failed to write sstable: %v", err)
 	}
 }
 
@@ -508,6 +509,11 @@ func (lm *levelManager) compactLN(n int) {
 		dataBlockIndex: dataBlockIndex,
 	}
 
+	// write new sstable before anything is deleted: until it is durable the old sstables are the only copy
+	if err := lm.writeTable(n+1, th.levelIdx, tableBytes); err != nil {
+		lm.logger.Panicf("failed to write sstable: %v", err)
+	}
+
 	// update index
 	// add new index to LN+1
 	lm.levels[n+1].PushBack(th)
@@ -528,22 +534,6 @@ func (lm *levelManager) compactLN(n int) {
 		if err := os.Remove(lm.fileName(n+1, e.Value.(tableHandle).levelIdx)); err != nil {
 			lm.logger.Panicf("failed to delete old sstable: %v", err)
 		}
-	}
-
-	// write new sstable
-	fd, err := os.OpenFile(lm.fileName(n+1, th.levelIdx), os.O_CREATE|os.O_RDWR|os.O_TRUNC, 0600)
-	if err != nil {
-		lm.logger.Panicf("failed to open sstable: %v", err)
-	}
-	defer func() {
-		if err = fd.Close(); err != nil {
-			lm.logger.Errorf("failed to close file: %v", err)
-		}
-	}()
-
-	_, err = fd.Write(tableBytes)
-	if err != nil {
-		lm.logger.Panicf("failed to write sstable: %v", err)
 	}
 }
 
